@@ -67,6 +67,8 @@ def run(ctx):
                 rng = ctx.rng.fork(f"{ty}:{bs}:{q['module']}:{u['name']}")
                 zs = [(fl(3.0), fl(4.0)), (fl(-3.0), fl(4.0)), (fl(3.0), fl(-4.0)), (fl(0.0), fl(1.0)), (fl(-2.0), sp["+0"]), (fl(2.0), sp["-0"]),
                       (fl(2.5), sp["+0"]), (fl(1.0), sp["+0"]), (sp["+0"], sp["+0"]), (fl(1e10), sp["+0"]), (fl(7.25), sp["+0"])]
+                big, tiny = (1e200, 1e-200) if ft == "f64" else (1e25, 1e-25)
+                zs += [(fl(big), sp["+0"]), (fl(3 * big), fl(4 * big)), (fl(-3 * tiny), fl(4 * tiny)), (fl(tiny), sp["+0"]), (fl(big), fl(tiny))]
                 zs += [(FC.random_value(rng, ft), FC.random_value(rng, ft)) for _ in range(3 if quick else 20)]
                 zs += [(FC.random_value(rng, ft) & ~(1 << (FC.FMT[ft]["bits"] - 1)), sp["+0"]) for _ in range(3 if quick else 20)]
                 for (re, im) in zs:
